@@ -101,6 +101,19 @@ func runC07(o opts) error {
 		for v, m := range []int{0, 1 << 1, 1 << 14, 1<<1 | 1<<14, full, full &^ (1 << 1), full &^ (1 << 14), full &^ (1<<1 | 1<<14),
 			rng.Intn(1 << 15), rng.Intn(1<<15) &^ (1<<1 | 1<<14), rng.Intn(1<<15) | 1<<14, rng.Intn(1<<15) | 1<<1} {
 			scns = append(scns, c07.WidgetSession(m, v%2 == 1, v), c07.WidgetSession(m, v%2 == 0, v+rng.Intn(12)))
+			// the same widgets on terminals that name themselves: a kitty without mode 2027 shows the parts of a
+			// joined emoji sequence on their own (Vaxis measures with its no-joiner method there)
+			// (the variants chosen for kitty hold no variation-selector emoji: a real kitty shows U+263A U+FE0F
+			// two cells wide, which the harness's terminal without mode 2027 - it adds up code points - does not)
+			for _, id := range []string{"kitty 0.35.2", "foot(1.16.2)"} {
+				vv := v + rng.Intn(15)
+				if id[0] == 'k' {
+					vv = []int{2, 3, 7, 8, 12, 13}[rng.Intn(6)]
+				}
+				ws := c07.WidgetSession(m, v%2 == 1, vv)
+				ws.TermID = id
+				scns = append(scns, ws)
+			}
 		}
 		// ... nor on the application id the terminal reports in its reply to the OSC 176 query (any string)
 		for v, id := range []string{"org.example;profile=work", "a;b;c", ";", "x y", "org.example.App"} {
